@@ -140,6 +140,19 @@ def run(run, replay=None):
                     h.stats(victim)
         h.stats(rng.choice([a, b]))
         h.cmp(a, b)
+        # the SAME bytes loaded twice: the two results share nothing, not even nested metadata values
+        e = h.ser(a)
+        if e['status'] == 'ok':
+            p1 = h.parse(bytes(e['bytes']))
+            p2 = h.parse(bytes(e['bytes']))
+            if p1['status'] == 'ok' and p2['status'] == 'ok':
+                t1 = len(h.trees) - 1
+                t = h.trees[t1 - 1]
+                for ci in range(0, len(t.changes) + 1):
+                    for fi in range(0, (len(t.changes[ci - 1].files) if ci else 0) + 1):
+                        h.mut2(t1, ci, fi, 'stats', 'insertions', 12345)
+                h.stats(t1)
+                h.cmp(t1, t1 + 1)
         traces.append(h.trace(len(traces), CHK))
         run.count(('twins', seed), nontrivial=True)
     # histories enumerated / walked by TLC (Gen_Dom), concretised against the real trees
